@@ -57,6 +57,14 @@ type Chain struct {
 	Committee  neotest.Signer // n/2+1 of n multisig (committee majority)
 	Payer      neotest.Signer // pays all fees with scope None so that it never witnesses anything
 
+	// NextScope, when set, is the witness scope of the signers of the next prepared transaction (then it resets to
+	// the default, Global). CalledByEntry: the witnesses are valid in the contract called by the entry script only,
+	// not in contracts that one calls.
+	NextScope transaction.WitnessScope
+
+	// set by Reelect: the Alphabet and committee-majority accounts of the committee that was voted out
+	FormerAlphabet, FormerCommittee neotest.Signer
+
 	// FixedSysFee, when positive, is used as the system fee of every prepared
 	// transaction instead of a test run: needed when several transactions share
 	// a block and the state they will see differs from the one a test run sees.
@@ -307,9 +315,13 @@ func (c *Chain) signedTx(script []byte, signers []neotest.Signer, payer bool) *t
 			tx.Signers = append(tx.Signers, transaction.Signer{Account: c.Payer.ScriptHash(), Scopes: transaction.None})
 		}
 	}
+	scope := transaction.Global
+	if c.NextScope != 0 {
+		scope, c.NextScope = c.NextScope, 0
+	}
 	for _, s := range signers {
 		all = append(all, s)
-		tx.Signers = append(tx.Signers, transaction.Signer{Account: s.ScriptHash(), Scopes: transaction.Global})
+		tx.Signers = append(tx.Signers, transaction.Signer{Account: s.ScriptHash(), Scopes: scope})
 	}
 	if len(all) == 0 {
 		panic("chainkit: transaction without signers")
